@@ -10,20 +10,23 @@ pred IsNoErrorsMsg(x any) := typeis(x, "string") && cellat(string, payload(x)) =
 
 // lint's callback prints every error it is handed, once, to the configured output and never stops the parse
 func Lint$1
-  props C08 C09
+  props C08 C09 C17
   refines parser.NeverStop
-  captured @out lc.ReporterConfig.Output != nil
-  modifies errorsFound
+  captured @out lc.ReporterConfig.Output != nil && !typeis(lc.ReporterConfig.Output, "*bufio.Writer") && !typeis(lc.ReporterConfig.Output, "*encoding/csv.Writer")
+  modifies errorsFound, writeErr
   modifies ghost(bufSticky, sinkFailed, sinkPend, prLen, prSink, prArg, prArgs)
   ensures @prints-error err != nil ==> prLen == old(prLen) + 1 && prSink == store(old(prSink), old(prLen), payload(lc.ReporterConfig.Output)) && prArg == store(old(prArg), old(prLen), err)
   ensures @silent-on-record err == nil ==> prLen == old(prLen) && prArg == old(prArg) && prSink == old(prSink)
   ensures @counts errorsFound == old(errorsFound) + (if err != nil then 1 else 0)
+  // the first failed write is remembered; while none is remembered the sink has lost nothing (C17)
+  ensures @keeps-write-error [C17] old(writeErr) != nil ==> writeErr == old(writeErr)
+  ensures @remembers-loss [C17] writeErr == nil ==> sinkFailed[payload(lc.ReporterConfig.Output)] == old(sinkFailed[payload(lc.ReporterConfig.Output)])
 
 // Lint: every malformed line is reported once, in file order; "No errors found" is printed exactly when the
 // file has no malformed line (and --silent is not given)
 func Lint
-  props C08 C09
-  requires @out lc.ReporterConfig.Output != nil
+  props C08 C09 C17
+  requires @out lc.ReporterConfig.Output != nil && !typeis(lc.ReporterConfig.Output, "*bufio.Writer") && !typeis(lc.ReporterConfig.Output, "*encoding/csv.Writer")
   calluse ParseStreamCallback#1 lint
   modifies ghost(cbLen, cbErr, cbNode, cbStop, cbRet, cbLineNo, cbLine, cbHeader, cbElems, cbNElems, scRd, scPos, privLo, evOf, prOf, evOfPr, bufSticky, sinkFailed, sinkPend, prLen, prSink, prArg, prArgs)
   let rd := payload(stream)
@@ -33,6 +36,7 @@ func Lint
     assert @print-mal prLen > old(prLen) ==> cbErr[evOfPr[old(prLen)]] != nil && !typeis(prArg[old(prLen)], "string") && 1 <= cbLineNo[evOfPr[old(prLen)]] && cbLineNo[evOfPr[old(prLen)]] <= RdN(rd) && Malformed(rd, cbLineNo[evOfPr[old(prLen)]] - 1, cc)
   }
   ghost after call 1 Fprintln { assert @msg IsNoErrorsMsg(prArg[prLen - 1]) }
+  ensures @reports-loss [C17] result == nil ==> sinkFailed[payload(lc.ReporterConfig.Output)] == old(sinkFailed[payload(lc.ReporterConfig.Output)])
   ensures @reports-each [C09] result == nil ==> (forall i int :: {evOf[i]} 0 <= i && i < RdN(rd) && Malformed(rd, i, cc) ==> old(prLen) <= prOf[evOf[i]] && prOf[evOf[i]] < prLen && prArg[prOf[evOf[i]]] == cbErr[evOf[i]] && cbLineNo[evOf[i]] == i + 1 && cbLine[evOf[i]] == RdLine(rd, i))
   ensures @no-errors-only-if-none [C09] result == nil ==> forall k int :: {prArg[k]} old(prLen) <= k && k < prLen && IsNoErrorsMsg(prArg[k]) ==> !lc.Silent && (forall i int :: {RdLine(rd, i)} 0 <= i && i < RdN(rd) ==> !Malformed(rd, i, cc))
   ensures @no-errors-if-none [C09] result == nil && !lc.Silent && (forall i int :: {RdLine(rd, i)} 0 <= i && i < RdN(rd) ==> !Malformed(rd, i, cc)) ==> prLen > old(prLen) && IsNoErrorsMsg(prArg[prLen - 1])
